@@ -73,7 +73,7 @@ class C12(Prop):
     ASSUMPTIONS = ["AtomicCell::swap is atomic and sequentially consistent (memory ordering not modelled)",
                    "Condvar: a waiter is woken at the latest by notify_one after the predicate became true; spurious wake-ups are "
                    "harmless because the code re-tests the predicate (not modelled, exercised by the threaded stress only)",
-                   "no I/O error on the temporary file or the destination; write() of the destination accepts every byte",
+                   "no I/O error on the temporary file or the destination (short writes of the destination ARE exercised: modes 3 and 4 accept 2 resp. 5 bytes per call)",
                    "one producer handle and one consumer handle, each used by one thread at a time (guaranteed by &mut self / self)"]
 
     # ------------------------------------------------------------------ generation
@@ -91,6 +91,8 @@ class C12(Prop):
                 for k, sched in enumerate(merges(psteps(ops), csteps(prog))):
                     for mode in (0, 1):
                         m = 2 if (mode == 1 and k % 16 == 5) else mode
+                        if k % 4 == 3:
+                            m = 3 + mode    # destination that accepts only a few bytes per write() call
                         yield self.case(m, d0, ops, prog, sched), [f"n={n}", pname, f"mode={m}", "exhaustive-interleavings", "sizes=small"]
         # 2. exhaustive interleavings x all size vectors, short histories, programs a and b
         for n in range(0, (1 if quick else 2) + 1):
@@ -137,7 +139,7 @@ class C12(Prop):
             ln = rng.randint(0, psteps(ops) + csteps(prog) + 4)
             bias = rng.random()
             sched = [1 if rng.random() < bias else 0 for _ in range(ln)]
-            mode = rng.choice([0, 1, 1, 2])
+            mode = rng.choice([0, 1, 1, 2, 3, 4])
             yield self.case(mode, [9] * rng.randint(0, 2), ops, prog, sched), [f"n={n}", pname.split("+")[0], f"mode={mode}", "random-schedule", "flush" if -1 in ops else "noflush"]
 
     def nontrivial(self, case, tags):
